@@ -549,7 +549,7 @@ func readContractLines(path string) ([]string, []int, error) {
 }
 
 var clauseKeywords = map[string]bool{
-	"func": true, "spec": true, "pureany": true, "purefunc": true, "detfunc": true, "lemma": true, "axiom": true, "pureiface": true, "final": true,
+	"func": true, "spec": true, "pureany": true, "purefunc": true, "detfunc": true, "owned": true, "lemma": true, "axiom": true, "pureiface": true, "final": true,
 	"props": true, "requires": true, "ensures": true, "let": true, "loop": true, "assigns": true,
 	"pure": true, "functional": true, "inline": true, "trusted": true, "callback": true, "ghost": true, "on": true,
 	"maypanic": true, "attr": true, "assume": true, "package": true, "nobody": true, "cover": true, "token": true, "purecall": true,
@@ -740,6 +740,14 @@ func (cs *ContractSet) LoadFile(path, pkgPath string, isSpec bool) error {
 			for _, f := range strings.Fields(rest) {
 				cs.PureIface["purefunc:"+f] = true
 			}
+			cur = nil
+		case "owned":
+			// owned <Prop> Type.field Writer [Writer ...]: ownership declaration (zz_owned.go)
+			fs := strings.Fields(rest)
+			if len(fs) < 3 {
+				return fail(fmt.Errorf("owned <Prop> Type.field Writer [Writer ...]"))
+			}
+			cs.PureIface["owned:"+pkgPath+"|"+fs[0]+"|"+fs[1]+"|"+strings.Join(fs[2:], ",")] = true
 			cur = nil
 		case "detfunc":
 			// detfunc Field [Field ...]: as purefunc, and the results are a function of the function
